@@ -151,7 +151,9 @@ def _data(rng, kind, what=None):
         return {'kind': 'pobs', 'n': rng.randint(30, 90), 'tau': tau,
                 'seed': rng.randrange(2**31), 'what': 'neg' if tau < 0 else 'good'}
     if what == 'invalid':
-        return {'kind': 'badtable', 'mode': rng.choice(['empty', 'nan', 'strings', 'mixed']),
+        return {'kind': 'badtable', 'mode': rng.choice(['empty', 'nan', 'strings', 'mixed',
+                                                        'int_then_nan', 'int_then_strings',
+                                                        'nan_array']),
                 'what': 'invalid'}
     if kind == 'gmv':
         sp = zoo.rand_table_spec(rng, 2, 4, 30, 80, constant_p=0.3 if what == 'const' else 0.05)
@@ -252,6 +254,17 @@ def _make_data(spec):
         if spec['mode'] == 'strings':
             return pd.DataFrame({'c0': ['a', 'b', 'c'], 'c1': ['x', 'y', 'z'],
                                  'c2': ['p', 'q', 'r']})
+        if spec['mode'] == 'int_then_nan':
+            r = np.random.RandomState(2)
+            return pd.DataFrame({'c0': r.randint(0, 9, size=20), 'c1': r.normal(size=20),
+                                 'c2': np.where(np.arange(20) == 7, np.nan, r.normal(size=20))})
+        if spec['mode'] == 'int_then_strings':
+            return pd.DataFrame({'c0': [1, 2, 3, 4], 'c1': [0.5, 0.1, 0.9, 0.3],
+                                 'c2': ['x', 'y', 'z', 'w']})
+        if spec['mode'] == 'nan_array':
+            a = np.random.RandomState(3).normal(size=(20, 3))
+            a[5, 2] = np.nan
+            return pd.DataFrame(a, columns=['c0', 'c1', 'c2'])
         return pd.DataFrame({'c0': [1.0, 2.0, 3.0, 4.0], 'c1': ['x', 'y', 'z', 'w'],
                              'c2': [0.5, 0.1, 0.9, 0.3]})
     data = zoo.gen_data(spec)
